@@ -346,7 +346,26 @@ func (w *originWalker) consExpr(e *world.Expr, c *world.ConsSpec) {
 			w.may(e)
 		}
 	case "oneof":
-		w.may(e)
+		// one-of admits a reference wherever one of its alternatives does: the
+		// required origins are the union over the alternatives (each once); what
+		// any alternative leaves open stays open
+		seen := map[string]bool{}
+		for _, m := range w.m.Must {
+			seen[m.Key()] = true
+		}
+		for _, alt := range c.Elems {
+			sub := &OriginModel{}
+			sw := *w
+			sw.m = sub
+			sw.consExpr(e, alt)
+			for _, m := range sub.Must {
+				if !seen[m.Key()] {
+					seen[m.Key()] = true
+					w.m.Must = append(w.m.Must, m)
+				}
+			}
+			w.m.May = append(w.m.May, sub.May...)
+		}
 	default:
 		w.may(e)
 	}
